@@ -11,7 +11,7 @@ PER_BATCH = {'quick': 600, 'thorough': 9000}
 FLOORS = {
     'quick': {'distinct_nontrivial': 1500, 'round-trips': 5000, 'grammars-in-class': 500, 'feature:filtered-token-reinserted': 3000,
               'feature:inlined-rule-matched': 800, 'feature:expand1-rule-matched': 800, 'feature:alias': 1000, 'feature:repetition': 1500,
-              'feature:bang-rule': 300, 'feature:parser:lalr': 2000, 'feature:parser:earley': 1000, 'template-class': 16, 'calc-corpus': 1, 'nested-corpus': 1, 'aliased-recursion-corpus': 1},
+              'feature:bang-rule': 300, 'feature:parser:lalr': 2000, 'feature:parser:earley': 1000, 'template-class': 16, 'calc-corpus': 1, 'nested-corpus': 1, 'aliased-recursion-corpus': 1, 'template-root-corpus': 1},
     'thorough-unused': {'distinct_nontrivial': 25000, 'round-trips': 80000, 'grammars-in-class': 8000},
 }
 RULE = ("cases = (grammar generated inside the supported class, parser in {lalr, earley}, accepted input): EBNF grammars with "
@@ -362,6 +362,16 @@ def run_batch(ctx):
     from .c13 import RICH
     from .c08 import ws_variant
     run_grammar(ctx, TEMPLATE_G, rng, ['[a]', '[a, a] [a:b]', '[a,a,a][a:b,a:b]'])
+    if ctx.batch == 3:
+        # F-C19-1, second shape: ?start hands out the node of a template instance itself (the matcher is asked for a rule
+        # called like the template, which does not exist: GrammarError naming it)
+        L, r, a = gen.LIT, gen.rule, gen.alt
+        G = {'rules': [r('start', [a([['c', 'tm0', [['t', 'N']]]])], mods='?'),
+                       r('tm0', [a([['p', 'x'], ['q', ['g', [a([L(','), ['p', 'x']])]], '*', 0, 0]])], mods='?', params=['x'])],
+             'terms': [gen.term('N', ['x', '[0-9]+', ''], ex=['7', '42']), gen.term('WS', ['x', ' +', ''], ex=[' '])],
+             'ignore': ['WS'], 'start': ['start'], 'alphabet': list('742, ')}
+        run_grammar(ctx, G, rng, ['42 , 42 , 7', '7', '7,7'])
+        ctx.count('template-root-corpus')
     if ctx.batch == 2:
         run_grammar(ctx, _aliased_recursion(), rng, ['u K u', 'u k', 'u b', 'b K u b', 'u b K u u k', 'k', 'b'])
         ctx.count('aliased-recursion-corpus')
